@@ -322,7 +322,7 @@ func (x poison) run() (failed bool, panicked bool, pmsg string) {
 	var err error
 	if x.kind == "writer" {
 		w := &roomWriter{room: x.room}
-		panicked, pmsg = guard(func() { _, err = pdu.Marshal(w, clonePDU(x.p)) })
+		_, panicked, pmsg = callWatchMarked(func() { _, err = pdu.Marshal(w, clonePDU(x.p)) })
 	} else {
 		_, err, _, panicked, pmsg = marshalRec(clonePDU(x.p))
 	}
@@ -654,6 +654,16 @@ func denseSweep(ts []pduType, part string) []corpusItem {
 					p := mk()
 					p.Elem().Field(j).Set(reflect.ValueOf(pdu.Tags{0x0424: fill(l, 0x70)}))
 					out = append(out, corpusItem{t, p.Interface(), fmt.Sprintf("%s TLV length=%d", t.Name, l)})
+				}
+				// the ends and the byte / sign boundaries of the tag space, alone and in pairs
+				for a, ta := range boundaryTags {
+					p := mk()
+					p.Elem().Field(j).Set(reflect.ValueOf(pdu.Tags{ta: {1, 2}}))
+					out = append(out, corpusItem{t, p.Interface(), fmt.Sprintf("%s TLV tag=%#04x", t.Name, ta)})
+					tb := boundaryTags[(a+1)%len(boundaryTags)]
+					p = mk()
+					p.Elem().Field(j).Set(reflect.ValueOf(pdu.Tags{ta: {1}, tb: {2}, 0x0424: {3}}))
+					out = append(out, corpusItem{t, p.Interface(), fmt.Sprintf("%s TLV tags=%#04x,%#04x,0x0424", t.Name, ta, tb)})
 				}
 			}
 		}
